@@ -35,9 +35,11 @@ func (m *Machine) lockState(p *Value) *lockState {
 }
 
 func (m *Machine) yield(why string) {
-	if m.P.ExplicitYield && why != "symapi.Yield" && why != "field access" {
+	if m.P.ExplicitYield && why != "symapi.Yield" && why != "field access" && why != "Mutex.Unlock" {
 		// explicit mode: context switches only at symapi.Yield (placed in the fakes at the
-		// operations whose order is observable), configured fields, spawns and blocking
+		// operations whose order is observable), configured fields, spawns, blocking, and
+		// after a mutex is released (so that two critical sections of one thread can be
+		// separated by another thread's)
 		return
 	}
 	if m.threads != nil {
